@@ -6,7 +6,9 @@ byte streams x environments x segmentations, and every run is compared - after e
 RFC 1928 / 1929 written down in ``_helpers_C.socks5_reference``.  Nothing of the repository is imported or executed.  The rules
 compare *behaviour* (commands, replies, ``context.server.address``, what the next layer receives, whether the layer has ended, the
 content of the handshake buffer), so the shape of the code - if/match, helper extraction, tables, struct.pack / bytes([..]),
-renamed locals and private methods, logging, assertions, defaulted parameters - is irrelevant.
+renamed locals and private methods, logging, assertions, defaulted parameters, protocol errors transported by a private exception
+class that is raised in a (non-generator) parser and handled inside the layer, constants turned into an IntEnum, a NamedTuple
+destination - is irrelevant.  "No exception escapes" means: none leaves ``_handle_event``; what is raised and caught inside is control flow.
 
   R21.1 segmentation independence / buffer discipline, for every stream of the domain and every segmentation tried (whole, every
         single cut, byte by byte, message boundaries, pairs of cuts):
